@@ -76,7 +76,7 @@ def gen_case_f(rng):
     trailing = gen.trailing_shape(rng, 2)
     shape = [n] + trailing
     defx = rng.random() < 0.25
-    xs = [float(i) for i in range(n)] if defx else gen.axis_f(rng, n, rng.choice(["unit", "uniform", "geometric", "log", "ulps", "random", "evenish", "even", "nearly_even", "indexlike"]))
+    xs = [float(i) for i in range(n)] if defx else gen.axis_f(rng, n, rng.choice(["unit", "uniform", "geometric", "log", "ulps", "random", "evenish", "even", "nearly_even", "indexlike", "tail", "tail"]))
     flat = [rng.uniform(-1, 1) * 10.0 ** rng.randint(-3, 6) for _ in range(gen.shape_size(shape))]
     qs = [q for q in gen.queries_f(rng, xs, 10, special=False) if xs[0] <= q <= xs[-1]]
     return shape, defx, xs, flat, qs
